@@ -9,6 +9,7 @@ from __future__ import annotations
 
 import json
 
+import astgen
 import buildtie
 import corpus
 import gen_scripts
@@ -32,6 +33,9 @@ def main() -> int:
         recs = [x for x in recs if not x.get("origin", "").startswith("tpcds")] + r.sample(tp, 6)
     recs = recs + gen_scripts.gen_records(r, 300 if quick else 4000) + \
         [{"sql": s, "dialect": "ansi", "metadata": None, "config": {}, "origin": "special"} for s in gen_scripts.SPECIAL]
+    # single statements of the core-grammar generator (alias reuse across scopes, systematic FROM shapes)
+    recs = recs + [{"sql": astgen.to_sql(s), "dialect": "ansi", "metadata": None, "config": {}, "silent": False, "origin": "generated-ast"}
+                   for s in astgen.gen_batch(r, 350 if quick else 3000, (1, 2, 2), shapes=40 if quick else None, reuse=True)]
     res = buildtie.run(recs)
     disagreements, spec_failures = [], []
     known_hits = {}
@@ -93,7 +97,8 @@ def main() -> int:
         ck.violation(c, "tie", no_input=True)
     if not proofs_ok:
         ck.violation({"broken": "proof obligations of Props/C06.v", "detail": ck.broken_obligation}, "proof", no_input=not spec_failures)
-    return ck.finish(rule="every result of the harvested corpus and of %d generated scripts (1-4 statements, chains, with/without metadata) + special cases; "
+    return ck.finish(rule="every result of the harvested corpus, of %d generated scripts (1-4 statements, chains, with/without metadata), of core-grammar statements "
+                          "with aliases reused across scopes and systematic FROM shapes (harness/astgen.gen_batch) + special cases; "
                           "non-trivial = distinct script with >=1 reported column path" % (300 if quick else 4000))
 
 
